@@ -215,6 +215,9 @@ def run(ctx):
     dt = ev.heap.get((SELF, "data_transform"))
     leaves = list(T.phi_leaves(dt)) if dt is not None else []
     ok = dt is not None and any(l[0] == "obj" and l[2] == "IdentityTransform" for l in leaves) and T.atom("data_transform") in leaves
+    if ok:
+        none = ("is", T.atom("data_transform"), T.NONE)
+        ok = T.select(dt, none, False) == T.atom("data_transform") and T.select(dt, none, True)[0] == "obj"
     ctx.decide(ok, "C03.attach", init.ident, loc_of(init),
                "Flow.__init__ stores the given data_transform, IdentityTransform when None",
                f"Flow.__init__ stores {T.show(dt)[:200] if dt else None}")
@@ -249,9 +252,18 @@ def run(ctx):
     ctx.decide(ok, "C03.attach", m.ident, loc_of(m), "the flow is constructed with data_transform=<that transform>",
                "the flow constructor does not receive the data transform built from the instance options", disc="pass")
     fkw = dict(flows[0].kwargs) if flows else {}
-    bad = [k for k in ("dims", "dtype", "device") if k in fkw and fkw[k] != self_attr(k)]
+    bad = [k for k in ("dims", "dtype", "device") if fkw.get(k) != self_attr(k)]
     ctx.decide(not bad and flows, "C03.attach", m.ident, loc_of(m), "flow constructed with the instance's dims/dtype/device",
                f"flow constructor option(s) {bad} not taken from the instance", disc="opts")
+    gw = [e for e in ev.events if e.depth == 0 and e.callee.endswith("get_flow_wrapper")]
+    okg = len(gw) == 1 and dict(gw[0].kwargs).get("backend", gw[0].args[0] if gw[0].args else None) == self_attr("flow_backend") \
+        and dict(gw[0].kwargs).get("flow_matching", gw[0].args[1] if len(gw[0].args) > 1 else None) == self_attr("flow_matching")
+    ctx.decide(okg, "C03.attach", m.ident, loc_of(m), "the flow class is selected from the instance's flow_backend and flow_matching",
+               "the flow class is not selected from the instance's flow_backend / flow_matching (the default back-end is built instead)", disc="backend")
+    xpk = kw.get("xp")
+    okx = xpk is not None and any(s_ and s_[0] == "f" and "get_flow_wrapper" in s_[1] for s_ in T.subterms(xpk)) or (xpk is not None and xpk[0] in ("ref", "phi"))
+    ctx.decide(bool(okx), "C03.attach", m.ident, loc_of(m), "the data transform is built in the flow back-end's namespace",
+               "the data transform is not given the flow back-end's array namespace", disc="xp")
     stored = ev.heap.get((SELF, "_flow"))
     ctx.decide(flows and stored == flows[0].result, "C03.attach", m.ident, loc_of(m), "the constructed flow is stored as the instance's flow",
                "the constructed flow is not stored on the instance", disc="store")
@@ -278,9 +290,32 @@ MUTANTS = [
     M("init_flow hard-codes eps", _A, "eps=self.eps,\n            dtype=self.dtype,\n        )", "eps=1e-6,\n            dtype=self.dtype,\n        )", "C03.attach"),
     M("Flow.__init__ drops the transform", _B, "self.data_transform = data_transform", "self.data_transform = IdentityTransform(self.xp)", "C03.attach"),
 ]
+MUTANTS += [
+    M("Flow.__init__ replaces a given transform", _B, "if data_transform is None:\n            data_transform = IdentityTransform(self.xp)", "if data_transform is not None:\n            data_transform = IdentityTransform(self.xp)", "C03.attach"),
+    M("init_flow always builds the default back-end", _A, "backend=self.flow_backend, flow_matching=self.flow_matching", "flow_matching=self.flow_matching", "C03.attach", within="Aspire.init_flow"),
+    M("init_flow drops the flow dtype", _A, "data_transform=data_transform,\n            dtype=self.dtype,", "data_transform=data_transform,", "C03.attach"),
+]
 NEUTRALS = [
     M("zuko log_prob operand order", _TF, "self._flow().log_prob(x_prime) + log_abs_det_jacobian", "log_abs_det_jacobian + self._flow().log_prob(x_prime)"),
     M("jax sample_and_log_prob via temporary", _JF, "return xp.asarray(x), xp.asarray(log_prob - log_abs_det_jacobian)", "log_q = log_prob - log_abs_det_jacobian\n        return xp.asarray(x), xp.asarray(log_q)"),
     M("zuko sample unpacks both", _TF, "x = self.inverse_rescale(x_prime)[0]\n        return xp.asarray(x)", "x, _ = self.inverse_rescale(x_prime)\n        return xp.asarray(x)"),
     M("init_flow keyword order", _A, "eps=self.eps,\n            dtype=self.dtype,\n        )", "dtype=self.dtype,\n            eps=self.eps,\n        )"),
+]
+
+# functions the property is anchored in (auto-mutant sweep of the thorough tier)
+ANCHORS = [
+    'aspire.flows.torch.flows:ZukoFlow.log_prob',
+    'aspire.flows.torch.flows:ZukoFlow.sample_and_log_prob',
+    'aspire.flows.torch.flows:ZukoFlow.sample',
+    'aspire.flows.torch.flows:ZukoFlow.forward',
+    'aspire.flows.torch.flows:ZukoFlow.inverse',
+    'aspire.flows.jax.flows:FlowJax.log_prob',
+    'aspire.flows.jax.flows:FlowJax.sample_and_log_prob',
+    'aspire.flows.jax.flows:FlowJax.sample',
+    'aspire.flows.jax.flows:FlowJax.forward',
+    'aspire.flows.jax.flows:FlowJax.inverse',
+    'aspire.flows.base:Flow.rescale',
+    'aspire.flows.base:Flow.inverse_rescale',
+    'aspire.flows.base:Flow.__init__',
+    'aspire.aspire:Aspire.init_flow',
 ]
